@@ -63,6 +63,10 @@ const JUMP_PLACEHOLDER: u16 = 1337;
 impl From<u8> for OpCode {
     #[inline(always)]
     fn from(value: u8) -> Self {
+        #[cfg(feature = "verif")]
+        if value > OpCode::Halt as u8 {
+            crate::verif::probe_fail("invalid-opcode");
+        }
         // Safety: Since we convert OpCode to u8 (with repr(u8)) the reverse should also be safe
         unsafe { std::mem::transmute(value) }
     }
@@ -124,6 +128,16 @@ impl OpCode {
     }
 }
 
+#[cfg(feature = "verif")]
+pub(crate) fn verif_opcode_table() -> Vec<(u8, String, Vec<usize>)> {
+    (0..=OpCode::Halt as u8)
+        .map(|b| {
+            let op = OpCode::from(b);
+            (b, format!("{op:?}"), op.operands().to_vec())
+        })
+        .collect()
+}
+
 pub struct Bytecode {
     pub constants: Vec<Object>,
     pub instructions: Vec<u8>,
@@ -169,6 +183,16 @@ impl Compiler {
             loop_contexts: Vec::new(),
             gc: GC::new(),
         }
+    }
+
+    /// (bytes in the instruction buffer, loop contexts, constants)
+    #[cfg(feature = "verif")]
+    pub fn verif_state(&self) -> (usize, usize, usize) {
+        (
+            self.instructions.len(),
+            self.loop_contexts.len(),
+            self.constants.len(),
+        )
     }
 
     /// Compiles the given AST into executable Bytecode
